@@ -88,7 +88,7 @@ func RunProperty(c *core.Ctx, prop string, plan Plan, crashIsViolation bool, ext
 					// chains with two hold/collapse-capable actions process events
 					// re-entrantly; every symptom is classified by that shape
 					sig = prop + ":multi-hold-chain"
-				case breakBeforeHold(r.Case) && (strings.Contains(v.Sig, "held-by-action") || strings.HasPrefix(v.Sig, "commit-out-of-order:late-event-via=main")):
+				case breakBeforeHold(r.Case) && (strings.Contains(v.Sig, "held-by-action") || strings.HasPrefix(v.Sig, "commit-out-of-order:late-event-via=main") || strings.HasPrefix(v.Sig, "commit-past-unfinished:via=main")):
 					// ActionBreak at an earlier action bypasses a later action that holds
 					// an event; the processor then abandons the held event
 					sig = prop + ":break-before-hold-chain"
